@@ -274,8 +274,10 @@ fn restored(orig: &Document, d: &Document, what: &str, keep: &Document) -> Resul
 }
 
 /// decrypt_raw ends with a pass over the streams of Type ObjStm (ObjectStream::new: decompress in place, parse the
-/// members, add them under the numbers still free).  The members the plain document's object streams hold, first
-/// occurrence first -- computed on a copy of the PLAIN document, so that the verdict can say which objects may appear.
+/// members, add them under the numbers still free -- since repo 959d50f: free under every generation; the documents of
+/// this harness have no Compressed cross-reference entries, so no member is "named").  The members the plain
+/// document's object streams hold, first occurrence first -- computed on a copy of the PLAIN document, so that the
+/// verdict can say which objects may appear.
 fn objstm_members(doc0: &Document) -> Vec<(ObjectId, Object)> {
     let mut out: Vec<(ObjectId, Object)> = vec![];
     for (_, o) in &doc0.objects {
@@ -355,12 +357,12 @@ fn direct_verdict(doc0: &Document, v: &Ver, pws: &[Vec<u8>], alldiff: bool) -> S
             return format!("FAIL {}", m);
         }
         // besides the objects of the plain document only members of its object streams may be there, each under a
-        // number that was free (the number of the encryption dictionary is not: add_object took it), with the
-        // value the object stream gives it; every such member must be there
+        // number that was free under every generation (the number of the encryption dictionary is not: add_object
+        // took it), with the value the object stream gives it; every such member must be there
         let enc_id = enc.trailer.get(b"Encrypt").and_then(Object::as_reference).ok();
         let mut expect = doc0.objects.len();
         for (id, m) in objstm_members(doc0) {
-            if doc0.objects.contains_key(&id) || Some(id) == enc_id {
+            if doc0.objects.keys().any(|k| k.0 == id.0) || enc_id.map(|e| e.0) == Some(id.0) {
                 continue;
             }
             expect += 1;
